@@ -2083,3 +2083,44 @@ pub unsafe extern "C" fn shm_unlink(name: *const libc::c_char) -> i32 {
     }
     real(name)
 }
+
+// ------------------------------------------------------------------ calls the library does not make today
+// A change to the library may move to a sibling of a call the seam covers. A real blocking call
+// made by the baton holder would stall the whole run in real time, so the siblings are routed
+// into the same emulation (only for descriptors the ledger knows as sockets; everything else -
+// files, stdio, /proc - goes straight to the kernel as before).
+fn ledger_socket(fd: i32) -> bool {
+    if !active() || fd < 0 || fd as usize >= MAXFD {
+        return false;
+    }
+    let i = &g().fds[fd as usize];
+    i.open && (i.kind == K_SOCK || i.kind == K_RECEIVED)
+}
+#[no_mangle]
+pub unsafe extern "C" fn sendto(fd: i32, buf: *const libc::c_void, len: usize, flags: i32, addr: *const libc::sockaddr, alen: libc::socklen_t) -> isize {
+    if addr.is_null() && ledger_socket(fd) {
+        return send(fd, buf, len, flags);
+    }
+    ret(raw6(libc::SYS_sendto, fd as i64, buf as i64, len as i64, flags as i64, addr as i64, alen as i64)) as isize
+}
+#[no_mangle]
+pub unsafe extern "C" fn recvfrom(fd: i32, buf: *mut libc::c_void, len: usize, flags: i32, addr: *mut libc::sockaddr, alen: *mut libc::socklen_t) -> isize {
+    if addr.is_null() && ledger_socket(fd) {
+        return recv(fd, buf, len, flags);
+    }
+    ret(raw6(libc::SYS_recvfrom, fd as i64, buf as i64, len as i64, flags as i64, addr as i64, alen as i64)) as isize
+}
+#[no_mangle]
+pub unsafe extern "C" fn read(fd: i32, buf: *mut libc::c_void, len: usize) -> isize {
+    if ledger_socket(fd) {
+        return recv(fd, buf, len, 0);
+    }
+    ret(raw6(libc::SYS_read, fd as i64, buf as i64, len as i64, 0, 0, 0)) as isize
+}
+#[no_mangle]
+pub unsafe extern "C" fn write(fd: i32, buf: *const libc::c_void, len: usize) -> isize {
+    if ledger_socket(fd) {
+        return send(fd, buf, len, 0);
+    }
+    ret(raw6(libc::SYS_write, fd as i64, buf as i64, len as i64, 0, 0, 0)) as isize
+}
